@@ -1,0 +1,12 @@
+//! Verification hook: forwarder for the private status reader of the shrex client.
+
+use std::io;
+
+use futures::AsyncRead;
+
+pub(crate) async fn read_status<T>(io: &mut T) -> io::Result<i32>
+where
+    T: AsyncRead + Unpin + Send,
+{
+    super::read_status(io).await
+}
